@@ -29,23 +29,23 @@ INNERS = {
 
 
 def bounds(tier):
-    return {'max_len': 6 if tier == 'quick' else 8, 'key_classes': 5, 'inner_pipelines': list(INNERS)}
+    return {'max_len': 7 if tier == 'quick' else 8, 'key_classes': 5, 'inner_pipelines': list(INNERS)}
 
 
 def units(tier):
     out = []
-    L = 6 if tier == 'quick' else 8
-    n = 4 if tier == 'quick' else 32
+    L = 7 if tier == 'quick' else 8
+    n = 8 if tier == 'quick' else 32
     for inner in INNERS:
-        Li = L if inner == 'to_list' else L - 1
+        Li = L if inner == 'to_list' else (L - 1 if tier != 'quick' else L - 2)
         for sh in range(n):
             out.append({'fam': 'top', 'inner': inner, 'L': Li, 'shard': [sh, n]})
-    Ln = 5 if tier == 'quick' else 6
+    Ln = 5 if tier == 'quick' else 7
     for fam in ('ingroup', 'inroll21', 'inroll22', 'insplit', 'groupgroup_stream'):
         for sh in range(4):
             out.append({'fam': fam, 'L': Ln, 'shard': [sh, 4]})
-    d = 7 if tier == 'quick' else 9
-    nr = 4 if tier == 'quick' else 16
+    d = 8 if tier == 'quick' else 10
+    nr = 8 if tier == 'quick' else 32
     for sh in range(nr):
         out.append({'fam': 'raw', 'depth': d, 'shard': [sh, nr]})
     return out
